@@ -32,6 +32,7 @@ type Oblig struct {
 	Static    string // "ok" / "violated": decided by the generator itself (call-graph scan), no solver
 	Relax     string // extra hypothesis tried when the strict obligation is not proved
 	RelaxName string // name of the assumption class the relaxed proof depends on
+	Timeout   int    // seconds (0 = tier default)
 }
 
 // ModelVar names an input of the function for counterexample reporting.
@@ -100,6 +101,7 @@ type exec struct {
 	mapField  map[string]*types.Map
 	file      *ast.File // file declaring the function under proof (import aliases are per file)
 	usesCsprng bool     // the contract mentions csprng(): provenance flags are tracked
+	firstStore map[string]*Val // first value stored to each named local of the function under proof
 }
 
 func (x *exec) note(f string, a ...interface{}) { x.notes[fmt.Sprintf(f, a...)] = true }
@@ -207,6 +209,9 @@ func (x *exec) oblig(fr *frame, s *State, kind, label string, pos token.Pos, goa
 			base += ":" + label
 		}
 		o := &Oblig{Base: base, Kind: kind, Func: x.fnName, pos: pos, Hyp: s.reach, Goal: goal, C: x.c, Props: props, Inputs: x.inputs}
+		if x.con != nil {
+			o.Timeout = x.con.Timeout
+		}
 		if pos.IsValid() {
 			o.Pos = x.p.Fset.Position(pos)
 		}
@@ -704,6 +709,15 @@ func (x *exec) instr(fr *frame, b *ssa.BasicBlock, in ssa.Instruction, s *State)
 			fail("store through pointer without location: %s", i)
 		}
 		x.nilCheck(fr, s, addr, i.Pos())
+		if addr.L.K == LCell && x.dry == 0 && fr.top && v.T != "" {
+			// first value assigned to a local: `first(name)` in a split clause refers to it
+			if x.firstStore == nil {
+				x.firstStore = map[string]*Val{}
+			}
+			if _, done := x.firstStore[addr.L.Alloc.Comment]; !done {
+				x.firstStore[addr.L.Alloc.Comment] = v
+			}
+		}
 		x.store(s, addr.L, v, i.Val.Type())
 	case *ssa.UnOp:
 		x.unop(fr, i, s)
